@@ -37,6 +37,11 @@ static uint32_t gput(const std::string& s, bool nul_after = false) {
     memset(X->mem + p + s.size(), nul_after ? 0 : 'Z', 4);      // guest paths are not NUL-terminated
     return p;
 }
+static void V(const std::string& oracle, const std::string& site, const std::string& detail);
+// a 32-bit result (byte count, descriptor number) must not be stored wider than 4 bytes
+static void check_u32_result_area(uint32_t rp, const std::string& call) {
+    for (int k = 4; k < 8; k++) if (X->mem[rp + k] != 0xA5) { V("result-area", call + ":stored-wider-than-32-bits", call + " wrote beyond its 4-byte result at guest address " + std::to_string(rp)); return; }
+}
 static void check_canaries() {
     for (auto& r : X->regions) {
         for (int k = 1; k <= 8; k++) if (X->mem[r.first - k] != 0xA5) { S->extra_guest_writes++; break; }
@@ -199,6 +204,7 @@ static void op_path_open(const Op& op) {
     for (auto& c : X->calls) if (c.call == "open" && norm_slashes(c.path) != norm_slashes(pres)) V("path", "path_open:host-path-differs-from-resolved", "open(" + c.path.substr(0, 200) + ") but resolved path is " + pres.substr(0, 200));
     if (r == 0) {
         uint32_t nfd = ld32(rp);
+        check_u32_result_area(rp, "path_open");
         if (nfd < X->tab.size() && X->tab[nfd].live) { V("descriptor", "path_open:aliases-live-descriptor", "path_open returned " + std::to_string(nfd) + " which is still open"); if (mfd >= 0) __real_close(mfd); return; }
         if (nfd > 100000) { V("descriptor", "path_open:implausible-descriptor", std::to_string(nfd)); if (mfd >= 0) __real_close(mfd); return; }
         while (X->tab.size() <= nfd) X->tab.push_back(MFd());
@@ -264,6 +270,7 @@ static void op_rw(const Op& op) {
     if (!expect_errno(op, nm, r, merr, ctx)) { check_position(op, fd, nm); return; }
     if (r == 0) {
         uint32_t n = ld32(rp);
+        check_u32_result_area(rp, nm);
         if ((ssize_t)n != mr) V("count", nm + (pos && off >= (1ull << 32) ? ":offset>=2^32" : "") + (fired ? ":after-" + f : ""), nm + " reported " + std::to_string(n) + " bytes, POSIX reference " + std::to_string((long long)mr) + " (" + ctx + ")");
         if (!wr) {
             size_t left = (size_t)std::max<ssize_t>(mr, 0);
@@ -611,7 +618,11 @@ static void op_random(const Op& op) {
     std::string cls = len <= 256 ? "<=256" : len <= 65536 ? "257..65536" : ">65536";
     if (r != 0) { V("random", "random_get:failed:len" + cls, "random_get(len=" + std::to_string(len) + ") returned " + std::to_string(r) + " (" + wasi_errno_name((int)r) + ")"); return; }
     if (elog.size() == len) { if (len && memcmp(X->mem + bp, elog.data(), len) != 0) V("random", "random_get:bytes-not-filled:len" + cls, "buffer does not hold the entropy the host supplied"); }
-    else if (len >= 64) { size_t same = 0; for (uint32_t i = 0; i < len; i++) if (X->mem[bp + i] == 0xC3) same++; if (same > len / 4 + 8) V("random", "random_get:buffer-not-filled:len" + cls, std::to_string(same) + " of " + std::to_string(len) + " bytes untouched"); }
+    else if (len >= 32) {
+        // another entropy source was used: every window of 32 bytes must have been written (a run of 32 sentinel bytes is not random)
+        size_t run = 0, worst = 0, at = 0; for (uint32_t i = 0; i < len; i++) { if (X->mem[bp + i] == 0xC3) { if (++run > worst) { worst = run; at = i + 1 - run; } } else run = 0; }
+        if (worst >= 32) V("random", "random_get:buffer-not-filled:len" + cls, std::to_string(worst) + " consecutive bytes from offset " + std::to_string(at) + " of " + std::to_string(len) + " were never written");
+    }
     for (uint32_t k = len; k < len + 8; k++) if (X->mem[bp + k] != 0xC3) { V("random", "random_get:wrote-past-length", "len " + std::to_string(len)); break; }
 }
 static void op_proc_exit(const Op& op) {
